@@ -318,7 +318,8 @@ def k_rayleigh(fn: ast.FunctionDef) -> Fraction:
     disp = body[0].value.value
     got = statements(fn)
     keep = args + ["args"]
-    want = normalised(ast.parse("\n".join(x.replace("{disp}", repr(disp)) for x in RAYLEIGH)).body, keep)
+    from .base import spelling
+    want = normalised(spelling(ast.parse("\n".join(x.replace("{disp}", repr(disp)) for x in RAYLEIGH))).body, keep)
     got = normalised(body, keep)
     if got != want:
         for k, (a, b) in enumerate(zip(got, want)):
